@@ -338,6 +338,20 @@ def run_shard(ctx: Ctx, rec: Recorder) -> None:
         if idx % 389 == 0:
             check(rec, fields, "list", "B0undary", "wire")
             rec.mon("wire_roundtrip")
+    # (i-a) characters that Python's str.splitlines() treats as line boundaries but HTTP / MIME do not (VT, FF, FS, GS, RS,
+    # NEL, LS, PS) - and other C0/C1 controls - in names, filenames and extra header values: legal content, must round-trip
+    if ctx.shard == 0:
+        for ch in ("\x0b", "\x0c", "\x1c", "\x1d", "\x1e", "\x85", "\u2028", "\u2029", "\x00", "\x7f", "\x1a", "\t"):
+            for nm in (ch, "a" + ch + "b", ch + "x", "x" + ch, ch + ch):
+                for fld in (
+                    {"form": "plain", "name": nm, "data": "v"},
+                    {"form": "tuple2", "name": "f", "filename": nm, "data": b"\x00data"},
+                    {"form": "tuple3", "name": nm, "filename": nm, "data": "d" + ch, "ctype": "text/plain"},
+                    {"form": "rf", "name": nm, "filename": nm, "data": b"x", "ctype": None, "extra": [["X-Part-Id", "7" + (ch if ch not in ("\x00",) else "")]]},
+                ):
+                    rec.case(["line-boundary-char", repr(ch), fld["form"], nm])
+                    rec.mon("unicode_line_boundary")
+                    check(rec, [fld], "list", "B0undary", "encode")
     # (i-b) realistic file names whose guessed type depends on more than the last extension (compression suffixes, suffix
     # aliases, URL-looking names, case), in every order of two: the type a part carries is the one its own name specifies
     if ctx.shard == 0:
